@@ -146,7 +146,8 @@ def oracle(ctx, case, heap, snap, obs, desc, tp_id="tp-0", args=None, live=False
 
 
 def frames_literal(case, obs):
-    ft = {"single_frame": "SingleFrame", "all_frame": "AllFrame", "no_frame": "NoFrame"}[case["frame_type"]]
+    # the TEXT of the argument goes to Coq (Frames.frame_type_of_text reads it; None = the argument is absent)
+    ft = "(frame_type_of_text %s)" % L.opt(None if case["frame_type"] is None else L.s(case["frame_type"]))
 
     def meta(f):
         slf = f["locals"].get("self")
@@ -360,6 +361,8 @@ def run(ctx):
             heap = e1.read_heap(case)
             desc = e1.describe(case, heap)
             args = {"fire_count": "-1", "fire_period": "0", "frame_type": case["frame_type"], "stack_type": "stack"}
+            if case["frame_type"] is None:
+                del args["frame_type"]
             n_act = ctx.rng.choice([1, 1, 1, 2, 3])      # several tracepoints on the line: EVERY snapshot describes the frame
             snaps, raised = e1.run_impl(case, n_actions=n_act)
             ctx.case(dict(limits=desc["limits"], frame_type=desc["frame_type"], files=[f["file"] for f in desc["frames"]], tracepoints=n_act,
